@@ -518,6 +518,20 @@ pub async fn run_async(plan: &PlanA, opts: &ExecOpts) -> RunResult {
             for (code, v) in &m.extra {
                 msg.options.push((*code, v.clone()));
             }
+            if m.split_opts {
+                let mut split = vec![];
+                for (c, v) in msg.options.drain(..) {
+                    if v.len() >= 2 && c != 53 {
+                        let h = v.len() / 2;
+                        split.push((c, v[..h].to_vec()));
+                        split.push((c, v[h..].to_vec()));
+                    } else {
+                        split.push((c, v));
+                    }
+                }
+                msg.options = split;
+                res.probe("C12.request_with_split_options");
+            }
             let bytes = msg.encode();
             let src: SocketAddr = if let Some(g) = m.giaddr {
                 SocketAddr::new(IpAddr::V4(g), 67)
